@@ -184,7 +184,14 @@ def run_case(case):
       st["qpos"] = (rng.uniform(-0.04, 0.04, size=mjm.nq) * np.array([1.0, 0.4])).astype(np.float32)
     states.append(st)
   # capacity bucket from MuJoCo's own need (bounded set of kernel specialisations)
-  base = [mj_eval(mjm, st)[0] for st in states]
+  try:
+    base = [mj_eval(mjm, st)[0] for st in states]
+  except mujoco.FatalError as e:
+    # e.g. 'treeIterInit: contact is between two static bodies' (mocap geom touching a static geom): MuJoCo itself
+    # cannot evaluate the state, so there is no reference
+    rec.rejected = f"mujoco fatal error: {e}"[:160]
+    rec.count("rejected_mujoco_fatal")
+    return rec.result()
   need = max(int(b.nefc) for b in base)
   ncon_need = max(int(b.ncon) for b in base)
   njmax = next((c for c in NJMAX if c >= need + 8), None)
@@ -212,7 +219,11 @@ def run_case(case):
       continue
     csel = np.nonzero((con["type"] & 1) > 0)[0]
     inject = (con["geom"][csel], con["pos"][csel], con["dist"][csel], con["frame"][csel])
-    mjd, cmap, cok = mj_eval(mjm, states[w], inject)
+    try:
+      mjd, cmap, cok = mj_eval(mjm, states[w], inject)
+    except mujoco.FatalError:
+      rec.inconcl("mujoco fatal error with injected contacts")
+      continue
     ref = E.mj_rows(mjm, mjd)
     rc = E.mj_contacts(mjd)
     # ---- conditioning probe (same injected contact geometry, inputs perturbed by +-2 ulp)
@@ -220,7 +231,11 @@ def run_case(case):
     probes = []
     stable = True
     for _ in range(3):
-      pd, pmap, pok = mj_eval(mjm, cmp.perturb_state(states[w], prng), inject)
+      try:
+        pd, pmap, pok = mj_eval(mjm, cmp.perturb_state(states[w], prng), inject)
+      except mujoco.FatalError:
+        stable = False
+        continue
       pr = E.mj_rows(mjm, pd)
       if pok != cok or (pr["ne"], pr["nf"], pr["nl"], pr["nefc"]) != (ref["ne"], ref["nf"], ref["nl"], ref["nefc"]) or (cok and not np.array_equal(pmap, cmap)):
         stable = False
